@@ -114,6 +114,31 @@ M = [
      lambda: sub("src/protocol.rs", "for handler in transmute::<&Self, &mut Self>(self).handlers.values_mut() {", "for handler in transmute::<&Self, &mut Self>(self).handlers.values_mut().rev() {")),
     ("h10_bcm_binary_strict", [], "brightness decoder rejects Binary flag bytes other than 0/1 (stricter than the pinned code; no property requires accepting them)",
      lambda: sub("src/event/bcm.rs", "                Ok(Self::Binary(data[1] != 0x00))", "                if data[1] > 0x01 {\n                    return Err(ConvertPacketError::UnknownEnumVariant);\n                }\n\n                Ok(Self::Binary(data[1] != 0x00))")),
+    ("h11_serial_one_write_per_frame", [], "serial.rs: delimiter, length and frame written with one write_all per frame (the device's answers meet other write calls; bytes, order, flush and error propagation unchanged)",
+     lambda: sub("src/interface/serial.rs", """            let buf = [0x00; 1];
+            if let Err(err) = self.port.write_all(&buf) {
+                return Err(InterfaceError::SerialError(SerialError::WriteError(err)));
+            }
+
+            let buf = [frame_buf.len() as u8; 1];
+            if let Err(err) = self.port.write_all(&buf) {
+                return Err(InterfaceError::SerialError(SerialError::WriteError(err)));
+            }
+
+            if let Err(err) = self.port.write_all(&frame_buf) {
+                return Err(InterfaceError::SerialError(SerialError::WriteError(err)));
+            }
+""", """            let mut buf = vec![0x00, frame_buf.len() as u8];
+            buf.extend_from_slice(&frame_buf);
+            if let Err(err) = self.port.write_all(&buf) {
+                return Err(InterfaceError::SerialError(SerialError::WriteError(err)));
+            }
+""")),
+    ("h12_usart_encode_once", [], "usart.rs: each frame encoded once instead of twice when sending",
+     lambda: sub("src/interface/usart.rs", "for byte in frame.to_usart_frame().iter() {", "for byte in usart_frame.iter() {")),
+    ("h13_can_while_let", [], "can.rs: receive loop written as `while let Ok(frame) = …`",
+     lambda: (sub("src/interface/can.rs", "        loop {\n            match self.can.receive() {\n                Ok(frame) => {", "        while let Ok(frame) = self.can.receive() {\n            {\n                {"),
+              sub("src/interface/can.rs", "                }\n                Err(_) => break,\n            }\n        }\n", "                }\n            }\n        }\n"))),
     ("h08_builder_with_capacity", [], "PacketBuilder::new preallocates room for the announced frames",
      lambda: sub("src/packet.rs", "            frames: vec![frame],\n", "            frames: {\n                let mut v = Vec::with_capacity(expected_frame_count as usize);\n                v.push(frame);\n                v\n            },\n")),
 ]
